@@ -126,7 +126,14 @@ def cases(tier, seed):
 
 
 STYLES = {"bare": lambda i: "bare", "pred": lambda i: "pred", "bare_even": lambda i: "bare" if i % 2 == 0 else "cmp",
-          "pred_odd": lambda i: "pred" if i % 2 else "cmp", "bare_pred": lambda i: "bare" if i % 2 == 0 else "pred"}
+          "pred_odd": lambda i: "pred" if i % 2 else "cmp", "bare_pred": lambda i: "bare" if i % 2 == 0 else "pred",
+          # the base condition is an existential quantifier that holds exactly when b0 does
+          "exists_base": lambda i: "exists" if i == 0 else "cmp",
+          # the last condition is the Python constant True (an unconditional else / next branch); only valuations in
+          # which that condition's attribute is True are compared
+          "last_true": lambda i: "cmp",
+          # branches 1 and 2 are written with ONE condition object; only valuations with b1 == b2 are compared
+          "shared_1_2": lambda i: "cmp"}
 _PRED = []
 
 
@@ -155,7 +162,7 @@ class RSide:
 
 
 def build_and_run(block, two_vars=False, style=None, split=None):
-    from krrood.entity_query_language.entity import entity, let, inference
+    from krrood.entity_query_language.entity import entity, let, inference, exists, and_
     from krrood.entity_query_language.quantify_entity import an
     from krrood.entity_query_language.conclusion import Add
     from krrood.entity_query_language.rule import refinement, alternative, next_rule
@@ -166,8 +173,19 @@ def build_and_run(block, two_vars=False, style=None, split=None):
         dom.append(RItem("x" + "".join("1" if b else "0" for b in bits), *bits))
     x = let(RItem, dom, name="x")
     v = inference(ROut)()
+    shared_objects = {}
+
     def cond(i):
         how = STYLES[style](i) if style else "cmp"
+        if style == "last_true" and i == k - 1 and i > 0:
+            return True
+        if style == "shared_1_2" and i in (1, 2) and k >= 3:
+            if "c" not in shared_objects:
+                shared_objects["c"] = getattr(x, "b1") == True
+            return shared_objects["c"]
+        if how == "exists":
+            w = let(RSide, [RSide("w0", 0), RSide("w1", 1)], name="w")
+            return exists(w, and_(w.k == 0, getattr(x, f"b{i}") == True))
         if how == "bare":
             return getattr(x, f"b{i}")
         if how == "pred":
@@ -261,6 +279,10 @@ def run_case(block):
     wrong = []
     for o in dom:
         truth = [getattr(o, f"b{i}") for i in range(k)]
+        if style == "last_true" and k > 1 and not truth[k - 1]:
+            continue
+        if style == "shared_1_2" and k >= 3 and truth[1] != truth[2]:
+            continue
         exp = rdr.conclusions(block, truth)
         if two_vars:
             # the base conditions bind y as well: a branch that needs the base (root chain) fires once per y; branches
